@@ -311,6 +311,74 @@ macro_rules! adapter {
                 (a, b)
             }
 
+            /// One cold `ProguardMapping` (built on a helper thread) shared by `nthreads`
+            /// threads — even threads by reference, odd threads through a clone — each asking
+            /// every file-level question `rounds` times in a per-thread order. Returns the
+            /// answer of a separate instance asked alone, all concurrent answers, and the
+            /// number of pairs of calls from different threads that overlapped in time.
+            pub fn mapping_shared_answers(text: &[u8], nthreads: usize, rounds: usize) -> (String, Vec<String>, u64) {
+                use std::sync::atomic::{AtomicU64, Ordering};
+                struct Share<T>(T);
+                unsafe impl<T> Sync for Share<T> {}
+                unsafe impl<T> Send for Share<T> {}
+                fn ask(m: &pg::ProguardMapping<'_>, order: usize) -> String {
+                    let (mut s, mut h, mut v, mut n, mut u) = (String::new(), None, None, None, String::new());
+                    for k in 0..5 {
+                        match (k + order) % 5 {
+                            0 => {
+                                let x = m.summary();
+                                s = format!("{:?}/{:?}/{:?}/{}/{}", x.compiler(), x.compiler_version(), x.min_api(), x.class_count(), x.method_count());
+                            }
+                            1 => h = Some(m.has_line_info()),
+                            2 => v = Some(m.is_valid()),
+                            3 => n = Some(m.iter().fold((0u64, 0u64), |(c, e), i| if i.is_ok() { (c + 1, e) } else { (c, e + 1) })),
+                            _ => u = m.uuid().to_string(),
+                        }
+                    }
+                    format!("summary={s} has_line_info={h:?} is_valid={v:?} records={n:?} uuid={u}")
+                }
+                let alone = ask(&pg::ProguardMapping::new(text), 0);
+                let shared = std::thread::scope(|s| s.spawn(|| Share(pg::ProguardMapping::new(text))).join().expect("builder thread"));
+                let clones: Vec<Share<pg::ProguardMapping<'_>>> = (0..nthreads).map(|_| Share(shared.0.clone())).collect();
+                let clock = AtomicU64::new(0);
+                let barrier = std::sync::Barrier::new(nthreads);
+                let logs: Vec<Vec<(String, u64, u64)>> = std::thread::scope(|s| {
+                    let hs: Vec<_> = clones
+                        .into_iter()
+                        .enumerate()
+                        .map(|(t, c)| {
+                            let (shared, clock, barrier) = (&shared, &clock, &barrier);
+                            s.spawn(move || {
+                                let c = c;
+                                let mut out = vec![];
+                                barrier.wait();
+                                for r in 0..rounds {
+                                    let st = clock.fetch_add(1, Ordering::SeqCst);
+                                    let a = if t % 2 == 0 { ask(&shared.0, t + r) } else { ask(&c.0, t + r) };
+                                    let en = clock.fetch_add(1, Ordering::SeqCst);
+                                    out.push((a, st, en));
+                                }
+                                out
+                            })
+                        })
+                        .collect();
+                    hs.into_iter().map(|h| h.join().expect("mapping thread")).collect()
+                });
+                let mut overlaps = 0u64;
+                for a in 0..logs.len() {
+                    for b in (a + 1)..logs.len() {
+                        for x in &logs[a] {
+                            for y in &logs[b] {
+                                if x.1 < y.2 && y.1 < x.2 {
+                                    overlaps += 1;
+                                }
+                            }
+                        }
+                    }
+                }
+                (alone, logs.into_iter().flatten().map(|x| x.0).collect(), overlaps)
+            }
+
             fn mk_frame<'a>(
                 class: &'a str,
                 method: &'a str,
